@@ -251,9 +251,7 @@ def _ss_pre(E):
                                z3.MultiPattern(C1.rev(x), C1.rev(y))]))
 
 
-REG.add(Contract(MMOD, "Model.tolerance@setter", "C12", [("self", TRef("Model")), ("value", TReal())], [Case("any")], assumed=True,
-                 key="Model.tolerance@setter",
-                 note="writes the three optlang tolerances of the solver configuration and self._tolerance; touches no cobra object"))
+from . import w_tolerance as WT  # noqa  Model.tolerance@setter: PROVED there (was an assumed contract here until round 5)
 _ss_cases = []
 for _ws in (True, False):
     _c = Case("with_solver" if _ws else "without_solver", ensures=_ss_post(_ws))
